@@ -177,8 +177,10 @@ def parse_strings(out):
 
 def main():
   rep = vlib.Report(PROP, "proof")
-  info = vlib.build_obligations(PROP)
-  errs = rep.obligations(info, "coqc -Q coq/theories QV coq/theories/Properties/C20.v")
+  from translate import limitgen
+  gen = limitgen.emit(vlib.GEN)
+  info = vlib.build_obligations(PROP, gen_files=[gen], extra_files=[os.path.join(vlib.COQ, "theories", "Link", "LimitLink.v")])
+  errs = rep.obligations(info, "python3 tools/translate/limitgen.py coq/gen && coqc coq/gen/LimitGen.v && coqc coq/theories/Link/LimitLink.v && coqc coq/theories/Properties/C20.v")
   for e in errs:
     rep.violation("obligation-" + os.path.basename(e["file"]), "proof obligation no longer checks: " + e["error"][-400:],
                   {"file": e["file"]}, no_input=True)
@@ -225,6 +227,11 @@ def main():
     elif i == 1:    # select no layer at all
       limit = {"Dense": [4, 4, 4], "Conv2D": [4, 4, 4], "Conv1D": [4, 4, 4], "DepthwiseConv2D": [4, 4, 4], "Activation": [4]}
       r_ = 3
+    elif i in (3, 4):    # every class has an entry AND every layer name matches a pattern with a different limit: the pattern decides
+      cls_ = {"Dense": [8, 8, 8], "Conv2D": [8, 8, 8], "Conv1D": [8, 8, 8], "DepthwiseConv2D": [8, 8, 8], "Activation": [8]}
+      pat_ = {"^conv_": [2, 4, 3], "^blk1_": [2, 4, 3], ".*_mid": [1, 2, 3], "^kernel_proj": [2, 2, 2], "^head": [4, 4, 4], "^out": [2, 2, 2]}
+      limit = {**cls_, **pat_} if i == 3 else {**pat_, **cls_}
+      r_ = 0
     elif i == 2:    # a single selected layer, 3-element list default
       limit = {"Dense": [8], "Conv2D": [2], "Conv1D": [8, 2], "DepthwiseConv2D": [4], "Activation": [2], "default": [2, 4, 3]}
       r_ = 4
@@ -264,7 +271,7 @@ def main():
       # the polymorphic Coq pad_limit on slot identifiers
       ids = {}
       sid = lambda v: ids.setdefault(repr(v), len(ids) + 1)
-      pad_texts.append(f"pad_limit {vlib.blit(seq)} {clist(vlib.zlit(sid(v)) for v in dl)} {clist(vlib.zlit(sid(v)) for v in given)}")
+      pad_texts.append(f"gen_pad_limit {vlib.blit(seq)} {clist(vlib.zlit(sid(v)) for v in dl)} {clist(vlib.zlit(sid(v)) for v in given)}")
       pad_items.append((i, cname, given, dflt, [sid(v) for v in (adj.get(cname) or [])]))
     layers = [(l.name, type(l).__name__, bool(getattr(l, "use_bias", False)), act_kind(l)) for l in ref.layers]
     pats = list(adj.keys())
@@ -339,7 +346,12 @@ def main():
             is_lin = cls == "Activation" and lname[nme][2] == "ALinear"
             if is_lin:
               field, slot_i = "linear", 0
-            lv = adj[key][slot_i]
+            try:
+              lv = adj[key][slot_i]
+            except IndexError:
+              rep.violation(f"slot-undefined-{i}-{nme}-{role}", f"layer {nme} ({cls}, resolves to limit entry {key!r} = {adj[key]}) received {role} = {qn!r} although the entry "
+                            f"defines no slot {slot_i}; assignment {tab}", {"limit": str(adj), "assignment": tab})
+              continue
             okq = (qn in lv) if isinstance(lv, list) else (qn in cfg[field] and cfg[field][qn] <= lv)
             if not okq:
               what = (f"layer {nme} ({cls}, resolves to limit entry {key!r}) role {role}: quantizer {qn!r} is not allowed by slot {slot_i} = {lv} "
@@ -685,7 +697,7 @@ def main():
     if got != impl:
       rep.violation(f"delta-sign-model-{dp}-{dn}-{rate}-{refsz}", f"signs of delta on the implementation {impl} differ from the Coq sign model {got}", {"reference": refsz})
   souts = vlib.coq_eval_many([(f"{PROP}_size", HEADER.replace("Open Scope string_scope.", "Open Scope Z_scope.") + "".join(f"Eval vm_compute in {t}.\n" for t in stexts))])[f"{PROP}_size"] if stexts else []
-  pouts = vlib.coq_eval(f"{PROP}_pad", "From Coq Require Import List ZArith Bool.\nFrom QV Require Import AutoQ.Limits.\nImport ListNotations.\nOpen Scope Z_scope.\n" +
+  pouts = vlib.coq_eval(f"{PROP}_pad", "From Coq Require Import List ZArith Bool.\nFrom QV Require Import AutoQ.Limits.\nFrom QVGen Require Import LimitGen.\nImport ListNotations.\nOpen Scope Z_scope.\n" +
                         "".join(f"Eval vm_compute in {t}.\n" for t in pad_texts)) if pad_texts else []
   n_pad = 0
   for (i, cname, given, dflt, impl), got in zip(pad_items, pouts):
